@@ -4,6 +4,13 @@ set -e
 cd "$(dirname "$0")"
 mkdir -p coq/Generated evidence replays
 PYTHONPATH=${ISOBAR_REPO:-/repo} PYTHONHASHSEED=0 /venv/bin/python harness/gen_tables.py coq/Generated/Tables.v
+# per-engine table generators: harness/gen_tables_<x>.py -> coq/Generated/Tables<X>.v (same naming rule as common.Run.build)
+for g in harness/gen_tables_*.py; do
+  [ -e "$g" ] || continue
+  x=$(basename "$g" .py | sed 's/^gen_tables_//')
+  X=$(/venv/bin/python -c "import sys; print(sys.argv[1].capitalize())" "$x")
+  PYTHONPATH=${ISOBAR_REPO:-/repo} PYTHONHASHSEED=0 /venv/bin/python "$g" "coq/Generated/Tables$X.v"
+done
 cd coq
 ( echo "-Q . Isobar"; find . -name '*.v' ! -name '.*' | sed 's|^\./||' | LC_ALL=C sort ) > _CoqProject
 coq_makefile -f _CoqProject -o Makefile
